@@ -9,6 +9,7 @@ import (
 	"github.com/comdex-official/comdex/app/wasm/bindings"
 	assettypes "github.com/comdex-official/comdex/x/asset/types"
 	rewardstypes "github.com/comdex-official/comdex/x/rewards/types"
+	banktypes "github.com/cosmos/cosmos-sdk/x/bank/types"
 	vaulttypes "github.com/comdex-official/comdex/x/vault/types"
 )
 
@@ -116,6 +117,10 @@ func drawCdpConfig(r *Rng, cfg *Config) {
 	k["gap_profile"] = int64(r.Intn(4))
 	k["vault_interest"] = int64(r.Intn(4)) // 0 = app not whitelisted for interest
 	k["unsolicited"] = int64(r.Intn(3))    // 0 = never
+	if r.Chance(3, 4) {
+		k["debt_oracle"] = 1 // V2 auctions need an active price record for the debt asset
+	}
+	drawLiqConfig(r, cfg)
 }
 
 func feeChoice(r *Rng) sdk.Dec {
@@ -261,6 +266,14 @@ func setupCdp(w *World) {
 		}
 		w.Fund(w.Actors[i].Addr, coins)
 	}
+	// bidders and the keeper hold debt tokens from the faucet (tracked; excluded from the "minted through vaults" supply)
+	for _, i := range append(append([]int{}, p.Bidders...), p.Keeper, p.Attacker) {
+		w.Fund(w.Actors[i].Addr, sdk.NewCoins(sdk.NewCoin(p.Debt.Denom, p.Debt.Decimals.MulRaw(r.Range(1000, 1000000)))))
+	}
+	setupLiqV2(w, r)
+	w.touchModuleAccounts()
+	w.Liq = newLiqTracker(w)
+	w.OnBlock = append(w.OnBlock, func(w *World) { w.Liq.observe(w, false, true) })
 }
 
 const cdpActors = 12
@@ -607,7 +620,9 @@ func cdpGens() []OpGen {
 			if amt.GT(bal) {
 				amt = bal
 			}
-			return &Event{Kind: "admin", Admin: "unsolicited", Tag: "env.unsolicited", Fault: "env.unsolicited", Actor: a.Idx, Args: map[string]string{"module": mod, "coin": sdk.NewCoin(as.Denom, amt).String()}}
+			ev := w.TxEvent("env.unsolicited", a, banktypes.NewMsgSend(a.Addr, w.ModAddr(mod), sdk.NewCoins(sdk.NewCoin(as.Denom, amt))))
+			ev.Fault = "env.unsolicited"
+			return ev
 		}},
 	}
 }
